@@ -45,6 +45,7 @@ int        g_htp_may_fail, g_htpstart_n, g_htpinit_n;
 int        g_upd_may_fail; /* HIupdate_version may fail */
 int        g_start_may_fail;
 int        g_dup_failed;   /* strdup of the path failed */
+int        g_wr0;          /* WR(g_frec) on entry */
 static char g_path[2]  = "f";
 static char g_path0[2] = "f";
 static char g_dd_obj[8];
@@ -150,6 +151,39 @@ HTPinit(filerec_t *file_rec, int16 ndds)
     }
     return SUCCEED;
 }
+#ifdef H4V_NATIVE
+/* native replay only: the real HIread_version / HIupdate_version run there (under cbmc they are replaced by their
+   contracts); the element they look for is not found / cannot be created */
+atom_t
+HTPselect(filerec_t *file_rec, uint16 tag, uint16 ref)
+{
+    return FAIL;
+}
+atom_t
+HTPcreate(filerec_t *file_rec, uint16 tag, uint16 ref)
+{
+    return FAIL;
+}
+intn
+Hfind(int32 file_id, uint16 search_tag, uint16 search_ref, uint16 *find_tag, uint16 *find_ref, int32 *find_offset,
+      int32 *find_length, intn direction)
+{
+    return FAIL;
+}
+char *
+HIstrncpy(char *dest, const char *source, int len)
+{
+    int i = 0;
+    if (len == 0)
+        return dest;
+    while (i < len - 1 && source[i] != 0) {
+        dest[i] = source[i];
+        i++;
+    }
+    dest[i] = 0;
+    return dest;
+}
+#endif
 #ifdef H4V_CBMC
 /* the path is opaque to Hopen (passed to the lookup, strdup and fopen only): NULL or a fresh copy */
 char *
@@ -194,20 +228,20 @@ static int HIupdate_version(int32 file_id)
 
 /* The clause "the record says writable iff its stream is" fails on the write-upgrade path of the real code (defect
    candidate): it is checked everywhere except in the two obligations that look at the other clauses of that path. */
-#if H4V_CASE == 2 || H4V_CASE == 4
+#if H4V_CASE == 2 || H4V_CASE == 4 || H4V_CASE == 8
 #define CL_VIEW(e) 1
 #else
 #define CL_VIEW(e) (e)
 #endif
 #define ARGS_OK (path != NULL && (acc_mode & DFACC_ALL) == acc_mode)
-#define OLD_WR ((__CPROVER_old(g_frec->access) & DFACC_WRITE) != 0)
+#define OLD_WR (g_wr0 != 0) /* write permission of the shared record on entry (ghost snapshot: HO_ENV ties it to the record) */
 #define AGAIN (g_found && ARGS_OK)
 /* the documented "attempt to reopen the file with write permission" */
 #define UPGRADE (AGAIN && acc_mode != DFACC_CREATE && (acc_mode & DFACC_WRITE) && !OLD_WR)
 #define NO_STDIO (g_open_n == 0 && g_s_close_n[0] == 0 && g_s_close_n[1] == 0 && g_rd_n == 0 && g_wr_n == 0 && g_flush_n == 0)
 #define HO_ENV                                                                                               \
     (g_frec != NULL && g_frec->refcount >= 1 && g_frec->refcount < INT_MAX && g_frec->attach >= 0 && g_frec->file == HS0 &&      \
-     g_s_open[0] && !g_s_open[1] && g_s_writable[0] == WR(g_frec) && (WR(g_frec) || !g_frec->cache || !g_frec->dirty) &&          \
+     g_s_open[0] && !g_s_open[1] && g_s_writable[0] == WR(g_frec) && g_wr0 == WR(g_frec) && (WR(g_frec) || !g_frec->cache || !g_frec->dirty) &&          \
      g_frec->path == g_path0 && HCOH(g_frec) && g_path_open == g_found && !g_registered && g_reg_n == 0 && g_rem_n == 0 &&        \
      g_newfid != FAIL && NO_STDIO && g_seek_n == 0 && g_io_failed == 0 && g_create_n == 0 && g_open_ok_n == 0 &&                \
      g_open1_failed == 0 && g_htpstart_n == 0 && g_htpinit_n == 0 && g_s_close_n[0] == 0)
@@ -250,7 +284,8 @@ int32 Hopen(const char *path, int acc_mode, int16 ndds)
                       (__CPROVER_return_value == FAIL && g_reg_n == 0 && g_frec->version_set == __CPROVER_old(g_frec->version_set) &&
                        g_frec->f_cur_off == __CPROVER_old(g_frec->f_cur_off) && g_frec->last_op == __CPROVER_old(g_frec->last_op)))
     /* a compatible request succeeds (A-ALLOC: the registry does not fail) */
-    __CPROVER_ensures((AGAIN && acc_mode != DFACC_CREATE && !UPGRADE && !g_reg_may_fail) ==> __CPROVER_return_value != FAIL)
+    __CPROVER_ensures((AGAIN && acc_mode != DFACC_CREATE && !UPGRADE && !g_reg_may_fail && __CPROVER_old(library_terminate)) ==>
+                      __CPROVER_return_value != FAIL)
     /* write upgrade of a record opened read-only, as documented in the function header: the stream is replaced by one
        opened "rb+" (never a truncating mode), the old one is closed exactly once */
     __CPROVER_ensures((UPGRADE && __CPROVER_return_value != FAIL) ==>
@@ -347,6 +382,7 @@ h_Hopen(void)
     H4V_HAVOC(int, g_start_may_fail);
     H4V_ASSUME(g_found == 0 || g_found == 1);
     g_path_open  = g_found;
+    g_wr0        = WR(g_frec);
     g_reg_ptr    = NULL;
     g_reg_grp    = -1;
     g_registered = g_reg_n = g_rem_n = g_search_n = g_htpstart_n = g_htpinit_n = 0;
@@ -378,6 +414,8 @@ h_Hopen(void)
     H4V_ASSUME(!g_found && !null_path && (acc_mode & DFACC_ALL) == acc_mode && IN_CREATE && lib_started);
 #elif H4V_CASE == 8
     H4V_ASSUME(null_path || (acc_mode & DFACC_ALL) != acc_mode || !lib_started);
+    g_io_may_fail = 0; /* the fault paths of the branches behind the start-up are cases 4 and 7 */
+    g_upd_may_fail = 0;
 #endif
     int32 old_refcount = g_frec->refcount;
     int32 r = Hopen(null_path ? NULL : g_path, acc_mode, ndds);
